@@ -68,6 +68,9 @@ Section Count.
     destruct H as (i & s & i' & s' & p & -> & -> & Ha & _); exact Ha.
   Qed.
 
+  (* under the guard every plaintext handed to encrypt_eyaml is plain_ok (so the cipher IS called) *)
+  Definition log_plain (e : N * string * string) : Prop := plain_ok (snd (fst e)) = true.
+
   Record StepFacts (st : rstate) (vs : list loc) (st' : rstate) : Prop := mkSF {
     sf_seen : forall a, In a (r_seen st') <-> In a (r_seen st) \/ exists l, In l vs /\ anchor_at d0 l = Some a;
     sf_count : r_exit st' = 0 ->
@@ -75,7 +78,8 @@ Section Count.
                = List.length (r_log st) + List.length (r_seen st') + List.length (unanch vs);
     sf_fresh : plain_guard key dec oldk d0 = true -> r_exit st' = 0 ->
                NoDup (unanch vs) /\ forall l, In l (unanch vs) -> ~ DoneR st l;
-    sf_log : Forall (log_ok key enc layout newk) (r_log st) -> Forall (log_ok key enc layout newk) (r_log st')
+    sf_log : Forall (log_ok key enc layout newk) (r_log st) -> Forall (log_ok key enc layout newk) (r_log st');
+    sf_plain : plain_guard key dec oldk d0 = true -> Forall log_plain (r_log st) -> Forall log_plain (r_log st')
   }.
 
   Lemma rotate_at_facts : forall st p l st', JJ st -> POK p -> In l (resolve d0 p) ->
@@ -93,6 +97,16 @@ Section Count.
     { destruct Hry as [_ [_ [->|[_ Hr]]]]; [exists i0, v0; reflexivity|].
       destruct Hr as (a & s & i' & s' & q & _ & -> & _). exists i', (PStr s'); reflexivity. }
     destruct Hyleaf as (i & v & ->).
+    assert (Hplain : plain_guard key dec oldk d0 = true ->
+              forall txt, decrypt_eyaml key dec oldk v = Ok (PStr txt) -> plain_ok txt = true).
+    { intros G txt Hdv. unfold plain_guard in G. rewrite forallb_forall in G.
+      specialize (G (NLeaf i0 v0) (lookup_vnodes l d0 _ Hnm Hl0)). unfold secret_plain_ok in G.
+      destruct v0 as [| | | |s0|]; try discriminate Hs0. simpl in Hs0. rewrite Hs0 in G.
+      destruct Hry as [_ [_ [E0|[_ Hr]]]].
+      - inversion E0; subst. rewrite Hdv in G. exact G.
+      - destruct Hr as (ia & s & i' & s' & q & E0 & E1 & _ & _ & Hdq & Hq).
+        inversion E0; subst ia s. inversion E1; subst i' v. rewrite Hdq in G.
+        destruct (Hq G) as [_ B]. rewrite B in Hdv. discriminate Hdv. }
     assert (Hone : forall a, (exists l', In l' [l] /\ anchor_at d0 l' = Some a) <-> anchor_at d0 l = Some a).
     { intro a; split; [intros [l' [[<-|[]] E]]; exact E | intro E; exists l; split; [left; reflexivity | exact E]]. }
     rewrite Hanc in H.
@@ -106,6 +120,7 @@ Section Count.
         * intros _. rewrite Hun; simpl; lia.
         * intros _ _. rewrite Hun. split; [constructor | intros l' []].
         * tauto.
+        * tauto.
       + assert (Hnew : forall sn, sn = r_seen st ++ [a] ->
                   forall b, In b sn <-> In b (r_seen st) \/ exists l', In l' [l] /\ anchor_at d0 l' = Some b).
         { intros sn E b. rewrite E, Hone, in_app_iff. simpl. split.
@@ -116,6 +131,7 @@ Section Count.
             - apply (Hnew _ eq_refl).
             - intro F; discriminate F.
             - intros _ F; discriminate F.
+            - tauto.
             - tauto. }
         destruct pv as [| | | |txt|]; try discriminate H.
         destruct (encrypt_eyaml key enc layout newk txt (if mem_N (oid i) (r_folded st) then OBlock else OString)) as [encval|e|] eqn:He;
@@ -124,6 +140,7 @@ Section Count.
             - apply (Hnew _ eq_refl).
             - intro F; discriminate F.
             - intros _ F; discriminate F.
+            - tauto.
             - tauto. }
         simpl in H.
         match type of H with (do st2 <- ?X; _) = _ => destruct X as [st2| |] eqn:E end; simpl in H; try discriminate H.
@@ -135,6 +152,8 @@ Section Count.
         * intros _ _. rewrite Hun. split; [constructor | intros l' []].
         * intro Hf. rewrite F3. apply Forall_app. split; [exact Hf|]. constructor; [|constructor].
           eexists; exact He.
+        * intros G Hf. rewrite F3. apply Forall_app. split; [exact Hf|]. constructor; [|constructor].
+          exact (Hplain G txt eq_refl).
     - (* no anchor *)
       assert (Hun : unanch [l] = [l]) by (unfold unanch; simpl; rewrite Ea; reflexivity).
       assert (Hsame : forall sn, sn = r_seen st ->
@@ -159,6 +178,7 @@ Section Count.
           - apply (Hsame _ eq_refl).
           - intro F; discriminate F.
           - intros _ F; discriminate F.
+          - tauto.
           - tauto. }
       destruct pv as [| | | |txt|]; try discriminate H.
       destruct (encrypt_eyaml key enc layout newk txt (if mem_N (oid i) (r_folded st) then OBlock else OString)) as [encval|e|] eqn:He;
@@ -167,6 +187,7 @@ Section Count.
           - apply (Hsame _ eq_refl).
           - intro F; discriminate F.
           - intros _ F; discriminate F.
+          - tauto.
           - tauto. }
       simpl in H.
       match type of H with (do st2 <- ?X; _) = _ => destruct X as [st2| |] eqn:E end; simpl in H; try discriminate H.
@@ -178,6 +199,8 @@ Section Count.
       * intros G Hex. apply (Hfresh st2 G); [exact Hex | intro F; discriminate F].
       * intro Hf. rewrite F3. apply Forall_app. split; [exact Hf|]. constructor; [|constructor].
         eexists; exact He.
+      * intros G Hf. rewrite F3. apply Forall_app. split; [exact Hf|]. constructor; [|constructor].
+        exact (Hplain G txt eq_refl).
   Qed.
 
   Lemma unanch_app : forall a b, unanch (a ++ b) = unanch a ++ unanch b.
@@ -194,7 +217,7 @@ Section Count.
     (forall l, DoneR st l -> DoneR s1 l) ->
     StepFacts st (vs1 ++ vs2) st'.
   Proof.
-    intros st vs1 s1 vs2 st' [A1 B1 C1 D1] [A2 B2 C2 D2] Hex HD HM. constructor.
+    intros st vs1 s1 vs2 st' [A1 B1 C1 D1 P1] [A2 B2 C2 D2 P2] Hex HD HM. constructor.
     - intro a. rewrite A2, A1. split.
       + intros [[X|[l [Hl E]]]|[l [Hl E]]]; [left; exact X | right; exists l; split; [apply in_or_app; left; exact Hl | exact E]
                                              | right; exists l; split; [apply in_or_app; right; exact Hl | exact E]].
@@ -206,6 +229,7 @@ Section Count.
         intros l H1 H2. apply (F2 l H2). apply (HD (Hex E)). apply unanch_in; exact H1.
       + intros l Hl Hd. apply in_app_or in Hl. destruct Hl as [Hl|Hl]; [exact (F1 l Hl Hd) | exact (F2 l Hl (HM l Hd))].
     - intro F; apply D2, D1, F.
+    - intros G F; apply (P2 G), (P1 G), F.
   Qed.
 
   Lemma facts_nil : forall st, StepFacts st [] st.
@@ -214,6 +238,7 @@ Section Count.
     - intro a; split; [tauto | intros [H|[l [[] _]]]; exact H].
     - intros _. simpl. lia.
     - intros _ _. split; [constructor | intros l []].
+    - tauto.
     - tauto.
   Qed.
 
@@ -437,6 +462,20 @@ Section CountStatements.
 
   Lemma stmt_log_calls : Forall (log_ok key enc layout newk) (r_log st).
   Proof. apply (sf_log _ _ _ _ _ _ _ _ _ _ _ run_facts). constructor. Qed.
+
+  (* under the guard every logged call reached the cipher: its plaintext does not carry the marker *)
+  Lemma stmt_log_cipher_calls : plain_guard key dec oldk d = true ->
+    Forall (fun e : N * string * string =>
+              plain_ok (snd (fst e)) = true /\ exists c, enc newk (snd (fst e)) = Some c) (r_log st).
+  Proof.
+    intro G. pose proof stmt_log_calls as A.
+    pose proof (sf_plain _ _ _ _ _ _ _ _ _ _ _ run_facts G (Forall_nil _)) as B.
+    rewrite Forall_forall in A, B |- *. intros e He. specialize (A e He). specialize (B e He).
+    split; [exact B|]. destruct A as [fmt Hf]. unfold log_plain in B.
+    destruct (plain_ok_parts _ B) as (_ & Hpa & _ & Hpe).
+    unfold encrypt_eyaml in Hf. rewrite Hpe, Hpa in Hf. simpl in Hf.
+    destruct (enc newk (snd (fst e))) as [c|]; [exists c; reflexivity | discriminate Hf].
+  Qed.
 
   Lemma unanch_visits_incl : forall l, In l (unanchored_secret_positions d) -> In l (unanch d visits).
   Proof.
